@@ -5,6 +5,7 @@ import (
 	"fmt"
 	"sort"
 	"strings"
+	"time"
 
 	configapi "github.com/onosproject/onos-api/go/onos/config/v2"
 	"github.com/openconfig/gnmi/proto/gnmi"
@@ -57,7 +58,7 @@ func GetTree(inc *world.Incarnation, target string) (refmodel.Tree, error) {
 
 var failureCode = map[string]string{
 	"INVALID": "InvalidArgument", "FORBIDDEN": "PermissionDenied", "NOT_FOUND": "NotFound", "UNKNOWN": "Unknown", "CANCELED": "Canceled",
-	"ALREADY_EXISTS": "AlreadyExists", "UNAUTHORIZED": "Unauthenticated", "CONFLICT": "Aborted", "UNAVAILABLE": "Unavailable",
+	"ALREADY_EXISTS": "AlreadyExists", "UNAUTHORIZED": "Unauthenticated", "CONFLICT": "FailedPrecondition", "UNAVAILABLE": "Unavailable",
 	"NOT_SUPPORTED": "Unimplemented", "TIMEOUT": "DeadlineExceeded", "INTERNAL": "Internal",
 }
 
@@ -105,6 +106,9 @@ func (e *Exec) Judge() *Judgement {
 	}
 	sort.Strings(targets)
 	m := refmodel.NewModel(e.W.Schema, targets)
+	if e.RejectClass != "" {
+		m.RejectClass = e.RejectClass
+	}
 	j.Model = m
 	multi := map[uint64]bool{}
 	// 2. feed the model in log order
@@ -257,8 +261,41 @@ func (e *Exec) Judge() *Judgement {
 	// 6. device == applied configuration
 	if e.GoalReached {
 		for _, t := range targets {
-			got := e.W.Devices[t].Snapshot()
-			if d := got.Diff(m.Dev[t]); len(d) > 0 {
+			// Paths touched by a change the device refused are undetermined on the device from then on (the
+			// stored configuration moved on without it): they are left out of the comparison.
+			var tainted []refmodel.Path
+			for _, o := range j.Outs {
+				if contains(o.ApplyFail, t) {
+					for _, op := range o.Push[t] {
+						tp := op.P
+						if n := e.W.Schema.NodeOf(tp); op.Del && !op.Literal && n != nil && n.IsKeyLeaf() {
+							tp = tp.Parent()
+						}
+						tainted = append(tainted, tp)
+					}
+				}
+			}
+			strip := func(tr refmodel.Tree) refmodel.Tree {
+				if len(tainted) == 0 {
+					return tr
+				}
+				out := refmodel.Tree{}
+				for k, le := range tr {
+					skip := false
+					for _, tp := range tainted {
+						if le.P.Under(tp) {
+							skip = true
+						}
+					}
+					if !skip {
+						out[k] = le
+					}
+				}
+				return out
+			}
+			got := strip(e.W.Devices[t].Snapshot())
+			e.C.Count("device_leaves_compared", int64(len(got)))
+			if d := got.Diff(strip(m.Dev[t])); len(d) > 0 {
 				props := []string{"C04", "C07"}
 				if e.hasKind("rollback") {
 					props = append(props, "C06")
@@ -274,8 +311,22 @@ func (e *Exec) Judge() *Judgement {
 		}
 	}
 	// 7. stranded
+	// deliveries of the last writes may still be in flight: give them up to 2 s before calling one missed
+	var missed int
+	for try := 0; ; try++ {
+		probe := &Judgement{}
+		missed = e.monitorWatchers(probe, e.W.Events())
+		if missed == 0 || try >= 200 {
+			j.Findings = append(j.Findings, probe.Findings...)
+			break
+		}
+		time.Sleep(10 * time.Millisecond)
+	}
 	if e.Stranded != "" {
 		kind := e.classifyStranded()
+		if missed > 0 {
+			kind = "after-missed-store-event"
+		}
 		j.add("stranded", []string{"C09", "C07", "C04", "C11", "C08"}, "stranded/"+kind, "the system became stable without reaching a final state: %s (%s)", e.Stranded, kind)
 	}
 	// 8. trace monitors
